@@ -255,6 +255,7 @@ type modSpec struct {
 	loc   Loc
 	slice SlV
 	mapv  Sc
+	fam   string
 }
 
 func (ex *Exec) modSpecs(fr *Frame, ct *Contract) []modSpec {
@@ -273,6 +274,13 @@ func (ex *Exec) modSpecs(fr *Frame, ct *Contract) []modSpec {
 					continue
 				case "entries":
 					out = append(out, modSpec{kind: "entries", mapv: env.eval(call.Args[0]).(Sc)})
+					continue
+				case "mapfamily":
+					t := env.resolveType(call.Args[0])
+					if t == nil {
+						specErr("mapfamily: unknown type")
+					}
+					out = append(out, modSpec{kind: "mapfamily", fam: mapFam(t.Underlying().(*types.Map))})
 					continue
 				}
 			}
@@ -327,6 +335,9 @@ func (ex *Exec) frameRelation(mods []modSpec, name string, cur *Term, r, k *Term
 		return And(ULt(r, entry.Alloc), Not(Or(covered...))), Eq(Select(Select(cur, r), k), Select(Select(old, r), k)), true
 	case "M":
 		for _, m := range mods {
+			if m.kind == "mapfamily" && strings.HasPrefix(name, m.fam+"|") {
+				return False, True, false
+			}
 			if m.kind == "entries" {
 				mt := m.mapv.Ty.Underlying().(*types.Map)
 				if strings.HasPrefix(name, mapFam(mt)+"|") {
@@ -510,6 +521,8 @@ func (P *Prog) verifyLemma(l *Lemma) (rep *FnReport) {
 		o := &Obligation{Fn: rep.Fn, Kind: "lemma", Name: fmt.Sprintf("lemma %s#%d", l.Name, i+1), Hyp: st.G, Goal: g, Skolems: e2.skolems, Props: l.Props, Src: p.Src, Reveal: l.Reveal}
 		o.Pos = token.Position{Filename: l.File, Line: p.Line}
 		o.Lazy = append(o.Lazy, ex.lazy...)
+		o.Lazy = append(o.Lazy, ex.goalLazy...)
+		ex.goalLazy = nil
 		rep.Obls = append(rep.Obls, o)
 	}
 	rep.Obls = append(rep.Obls, &Obligation{Fn: rep.Fn, Kind: "cover", Name: "lemma " + l.Name + "#cover", Hyp: st.G, Goal: True, Cover: true, Props: l.Props})
